@@ -3,7 +3,7 @@
    the scan of Model/CRC.v.  Soundness and completeness of the per-slice counts are the scan theorems
    of Props/C16.v (every counted slice carries the bytes of a window matching its checksum pair;
    every cleanly present slice - in particular every slice of an undamaged file - is found). *)
-From Gopar Require Import Model.Base Model.CRC Model.GoPath Model.FS Model.Par2 Proofs.Par2Facts Proofs.Par2Verify Proofs.Par2Clean Proofs.Par2Resync.
+From Gopar Require Import Model.Base Model.CRC Model.GoPath Model.FS Model.Par2 Proofs.Par2Facts Proofs.Par2Verify Proofs.Par2Clean Proofs.Par2Resync Proofs.Par2Ignore Proofs.Par2Reader2.
 Open Scope N_scope.
 
 (* "no repair needed" is reported only when every protected file is present with the recorded
@@ -87,3 +87,15 @@ Theorem C03_recovery_file_needs_no_creator : forall md5, (forall x, length (md5 
   read_file md5 (Some sid) pk = RFErr.
 Proof. exact read_file_vol_needs_no_creator. Qed.
 Print Assumptions C03_recovery_file_needs_no_creator.
+
+(* ... and when nothing that parses follows the intact packet (end of file, garbage, a torn tail), the file IS
+   accepted and the block IS loaded - no error alternative *)
+Theorem C03_intact_packet_before_unparsable_loaded : forall md5, (forall x, length (md5 x) = 16%nat) ->
+  forall sid body e d pre post,
+  length sid = 16%nat -> 64 + N.of_nat (length body) < 2 ^ 64 -> read_recv body = Ok (e, d) ->
+  let pk := write_packet md5 sid TYPE_RECV body in
+  no_packet_before md5 pre (pk ++ post) -> nothing_parses md5 sid post ->
+  exists f, read_file_vol md5 sid (pre ++ pk ++ post) = RFOk sid f /\ assoc_n (pf_recv f) e = Some d /\
+            pf_recv f = [(e, d)].
+Proof. exact intact_packet_before_unparsable_loaded. Qed.
+Print Assumptions C03_intact_packet_before_unparsable_loaded.
